@@ -633,7 +633,7 @@ def documented_valid(chk, P):
     from .c20 import Cfg
     reg = J.instantiate(P.cls("atsim.potentials.config._potential_form_registry", "Potential_Form_Registry"),
                         [PyObjV(Cfg(ListV([], "list"), ListV([], "list"), missing=True))], {"register_standard": TRUE, "register_pymath_functions": TRUE}, None)
-    have = set(k.v for k, _ in reg.attrs["_potential_forms"].items.values())
+    have = set(x.v for x in J.as_iterable(J.getattr(reg, "registered")).items)
     missing = sorted("as." + n for n in sigs if "as." + n not in have)
     chk.ob("C16.E10", "every form with a ':potable signature:' in the manual (%d) is registered" % len(sigs), not missing and len(sigs) >= 14,
            site=P.cls("atsim.potentials.config._potential_form_registry", "Potential_Form_Registry").lookup("__init__").site(), found=missing or None,
@@ -641,7 +641,7 @@ def documented_valid(chk, P):
     txt3 = open(os.path.join(repo, "docs", "reference", "potential_modifiers.rst"), encoding="utf-8").read()
     doc_mods = set(re.findall(r"^\.\. _modifier-(\w+):", txt3, re.M))
     mr = I.instantiate(P.cls("atsim.potentials.config._modifier_registry", "Modifier_Registry"), [], {}, None)
-    regm = set(k.v for k, _ in mr.attrs["_modifiers"].items.values())
+    regm = F.registered_modifiers(I, mr, doc_mods)
     chk.ob("C16.E10", "every documented modifier %s is registered" % sorted(doc_mods), doc_mods <= regm and len(doc_mods) >= 5,
            site=P.cls("atsim.potentials.config._modifier_registry", "Modifier_Registry").site_of("_register_standard"), found=sorted(regm),
            expect=sorted(doc_mods), key="C16.E10|modifiers")
